@@ -109,6 +109,19 @@ func (r *Run) Fatal(format string, a ...interface{}) {
 	r.fatal = append(r.fatal, fmt.Sprintf(format, a...))
 }
 
+// Failed reports whether the run has undecided anchors or floor failures.
+func (r *Run) Failed() bool {
+	if len(r.fatal) > 0 {
+		return true
+	}
+	for _, f := range r.Floors {
+		if !f.OK {
+			return true
+		}
+	}
+	return false
+}
+
 func (r *Run) Eval(n int) { r.Evals += n }
 
 func (r *Run) Saw(name string) { r.FuncsSeen[name] = true }
